@@ -405,6 +405,11 @@ func c20Extract(env *core.Env, tn string, seed uint64, noContained bool) {
 	md := gen.ResourceTypeByName(tn)
 	g := gen.NewResGen(core.NewRng(seed, "c20-extract", tn), seed%2 == 0)
 	g.NoContained = noContained
+	if seed >= 1<<40 {
+		// dense variant: every element of the type (two levels deep) is present, so every element name is labelled
+		g = gen.NewDenseResGen(core.NewRng(seed, "c20-extract-dense", tn))
+		env.Cover("extract-dense")
+	}
 	res := g.Resource(md)
 	tree, err := model.BuildTree(res)
 	if err != nil {
@@ -635,6 +640,9 @@ func runC20(env *core.Env) {
 		for _, md := range types {
 			if mine() {
 				c20Extract(env, string(md.Name()), env.Seed*13+uint64(k), k%4 != 3)
+				if k == 0 {
+					c20Extract(env, string(md.Name()), 1<<40+env.Seed, true)
+				}
 			}
 		}
 	}
